@@ -1,4 +1,9 @@
-"""C12 - admission limits: depth, drop policy (store level); size and rate limits (L1 part, when built)."""
+"""C12 - admission limits: depth and drop policy (store level, L0) and rate limit / size limits / fan-out rule (production wiring, L1)."""
+import json
+import os
+import re
+
+import vf
 from checks import queuefam as q
 
 RULE = ("MC: QueueMC (admission + lease families, max_depth 1..2, both drop policies, retention on/off) with DepthBound / DropRule / "
@@ -6,7 +11,13 @@ RULE = ("MC: QueueMC (admission + lease families, max_depth 1..2, both drop poli
         "queue, interleaved dequeues / acks; seeded 'admission' driver (max_depth 1..4, memory-pressure limits, explicit received_at so that "
         "'oldest' is exercised, operator requeue lifting the count above the limit); executed on memory and SQLite; every event validated by "
         "TLC: refusal => table unchanged (apart from the sanctioned prune), victims = oldest queued, never leased, exactly as many as needed, "
-        "only when the new messages are stored. distinct_nontrivial = validated events.")
+        "only when the new messages are stored. L1: Admission.tla (exact token bucket in milli-tokens, RateBound model-checked over all arrival / "
+        "refill interleavings); TLC-generated arrival sequences (gaps exactly on, just before and just after refill instants, bursts of 4 "
+        "concurrent requests, idle gaps, route with its own limiter vs routes under the global limiter vs unknown path), body and header sizes "
+        "at limit-1 / limit / limit+1 on a route with own limits and one with the defaults, and a 3-target fan-out into a queue with room for "
+        "0..4 messages are executed on the production wiring (app.VerifBoot, fake clock in the limiters) and validated by TLC "
+        "(AdmissionTrace: admitted => the exact bucket holds a whole token; 429 / 413 / 503 store nothing; part-way refused fan-out keeps "
+        "exactly the earlier targets' copies). distinct_nontrivial = validated events.")
 PROPS = ["DepthBound", "DropRule", "FailureIsNoop", "Conservation"]
 FAM = ("admission", "lease", "operator")
 
@@ -29,7 +40,73 @@ def run(ctx):
                         ("adm_rej", r2, dict(ids=3, family=("admission", "lease"), horizon=10, maxep=1, maxins=4, pick="insertion", ticks=(10,), delays=(0,), ttls=(10,)), 1),
                         ("adm_dd", dd, dict(ids=3, family=("admission", "lease", "read"), horizon=20, maxep=1, maxins=4, pick="insertion", ticks=(10,), delays=(0,), ttls=(10,)), 1)],
                 "drv": [("adm", "admission", 4000, 90, {})]}
-    q.run_plan(ctx, plan, RULE, assumptions=["store-level part: 503 / 413 / 429 mapping, body and header size limits and the ingress token bucket are the L1 part"])
+    l1_part(ctx)
+    q.run_plan(ctx, plan, RULE, assumptions=["token bucket: one token of slack on refusals for the implementation's floating-point refill (the statement is an upper bound)",
+                                             "rate windows that span a configuration reload are excluded (property quantifier)",
+                                             "publish-side 503 / duplicate handling is covered by C15; memory backend for the L1 part"])
+
+
+RE_ARR = re.compile(r'^<<"ARRIVALS", "(.*)">>$')
+
+
+def l1_part(ctx):
+    vf.build_hkv()
+    r = vf.mc_run(ctx, "ratebound", "Admission", {"Steps": {0, 100, 199, 200, 201, 1000}}, {"Rps": 5, "Burst": 3, "MaxT": 1400 if ctx.quick else 2400},
+                  invariants=["RateBound"], timeout=600, workers=4)
+    vf.mc_expect_ok(ctx, r, "Admission RateBound")
+    depth, num = (8, 150) if ctx.quick else (14, 3000)
+    g = vf.mc_run(ctx, "admgen", "AdmissionGen", {"Gaps": {0, 1, 199, 200, 201, 499, 500, 1000, 3000}, "Targets": {"own", "g1", "g2", "none"}}, {"Depth": depth},
+                  timeout=600, workers=1, extra=["-simulate", "num=%d" % num, "-depth", str(depth + 1), "-seed", str(ctx.seed)])
+    if g["error"]:
+        raise vf.Infra("AdmissionGen failed: %s" % g["error"])
+    seqs = []
+    for line in g["out"].splitlines():
+        m = RE_ARR.match(line)
+        if m:
+            seqs.append(json.loads(json.loads('"' + m.group(1) + '"')))
+    if not seqs:
+        raise vf.Infra("no arrival sequences generated")
+    ctx.sample({"kind": "TLC-generated arrival sequence", "arr": seqs[0]})
+    af = os.path.join(ctx.scratch, "arrivals.ndjson")
+    with open(af, "w") as f:
+        for i, s in enumerate(seqs):
+            f.write(json.dumps({"name": "arr-%04d" % i, "arr": s}) + "\n")
+    out = os.path.join(ctx.shm, "adm-trace")
+    info = json.loads(vf.hkv(["adm-run", "-arrivals", af, "-out", out, "-scratch", ctx.shm]).strip().splitlines()[-1])
+    res = vf.tv_run(ctx, [out], module="AdmissionTrace", name="tv-adm")[0]
+    ctx.cov["traces_validated_against_impl"] += info["traces"]
+    ctx.cov["schedules_executed"] += info["traces"]
+    if res["error"]:
+        raise vf.Infra("AdmissionTrace error: %s\n%s" % (res["error"], res.get("out_tail", "")))
+    events = vf.load_trace(out)
+    n429 = sum(1 for e in events if e["ev"] == "Rate" and e["admitted"] < e["m"])
+    nadm = sum(e["admitted"] for e in events if e["ev"] == "Rate")
+    n413 = sum(1 for e in events if e["ev"] == "Size" and e["status"] == 413)
+    ctx.count("rate_refusals", n429)
+    ctx.count("rate_admitted", nadm)
+    ctx.count("size_413", n413)
+    if n429 == 0 or nadm == 0 or n413 == 0:
+        raise vf.Infra("vacuous L1 admission run")
+    fails = list(res["fails"])
+    if res["matched"] < res["total"]:
+        fails.append((res["matched"] + 1, events[res["matched"]].get("ev", "?"), "rejected"))
+    seen = {}
+    for (line, ev, check) in fails:
+        e = events[line - 1]
+        sig = "L1/admission/%s/%s/%s" % (ev, check, e.get("limiter", e.get("route", e.get("room", ""))))
+        nm, start = vf.trace_of_line(events, line)
+        seen.setdefault(sig, (nm, e, line - start))
+    for sig, (nm, e, _) in sorted(seen.items()):
+        # reproduce: the arrival sequences are deterministic on the fake clock (bursts may vary in which request is refused, not in how many)
+        out2 = os.path.join(ctx.shm, "adm-trace-repro")
+        vf.hkv(["adm-run", "-arrivals", af, "-out", out2, "-scratch", ctx.shm])
+        rr = vf.tv_run(ctx, [out2], module="AdmissionTrace", name="tv-adm-repro")[0]
+        if not any(c == sig.split("/")[3] for (_, _, c) in rr["fails"]) and rr["matched"] == rr["total"]:
+            raise vf.Infra("divergence %s did not reproduce" % sig)
+        seq = None
+        if nm.startswith("arr-"):
+            seq = seqs[int(nm.split("-")[1])]
+        vf.report(ctx, sig, "%s in %s: %s" % (sig, nm, json.dumps(e)[:400]), {"layer": "L1", "arrivals": seq, "event": e, "trace": nm})
 
 
 def replay(ctx, path):
